@@ -1,12 +1,45 @@
 from verif import Q
 
 META = {
- "level_text": "",
- "level_note": "",
- "technique": "bounded symbolic model checking (CBMC/SAT)",
- "assumptions": [],
- "outside_claim": [],
- "mutants_tried": [],
+ "level_text": "Bounded symbolic model checking (CBMC, SAT and SMT back ends) of the real portable symmetric code, in layers. (1) Mode logic: every entry point of aes_{big,small,ct,ct64}_{cbcenc,cbcdec,ctr,ctrcbc} and des_{tab,ct}_{cbcenc,cbcdec} equals the textbook mode (SP 800-38A CBC/CTR with 32-bit and 128-bit counters, CBC-MAC, CCM/EAX-style encrypt/decrypt order) over the block function, in place, including the chaining state it leaves, and satisfies run(d,a+b) == run(d,a);run(d+a,b) for every admissible split, for every key, IV, counter (wrap included), MAC state and data of 3-5 blocks; the block function is an uninterpreted function bound at BearSSL's core link seam, so the result holds for every deterministic lane-wise core. (2) The same splitting law with the REAL key schedule and REAL cipher core (thorough tier) for all aes_big, aes_small, aes_ct and des_tab entry points, 2 of 7 aes_ct64 and 3 of 4 des_ct cases. (3) AES components against FIPS-197 written in the harness: S-box table == definition; bitsliced S-box / inverse S-box circuits == table in all 32/64 lanes; ortho / interleave == documented layout, involutive; all four key schedules for 16/24/32-byte keys; linear round steps; every core with 1 round (and 2 rounds, aes_small with 10 rounds, thorough). (4) DES: table round function == bitsliced round function under both real key schedules, all 16 rounds; whole block function tab == ct and CBC round trips (thorough, single DES / partly 3DES). (5) ChaCha20 ct == RFC 7539 for 64..200 bytes incl. counter wrap. (6) GHASH: bmul32 kernel == carry-less product, padding/chaining structure, and == bitwise GF(2^128) reference whenever one operand is a unit vector; Poly1305 ctmul == ctmul32 for the footer-only message. Partial: full-round AES equivalence of big/ct/ct64, AES CBC round trips, general GHASH and Poly1305 products, lengths beyond the bounds and all intrinsics-based implementations are outside (listed).",
+ "level_note": "Trusted: CBMC 6.11 front end and bit-precise semantics, the SAT/SMT back end named per query (minisat, cadical, kissat, z3, cvc5 - chosen by a sweep), loop models of memcpy/memset. Sizes (key length, data length, split point groups) are concrete per query. Layer (1) abstracts the block function (assumption list); layers (2)-(4) are what ties the abstraction to the real cores. Host configuration unless the query name ends in +esp / -esp (portable 32-bit paths).",
+ "technique": "bounded symbolic model checking (CBMC; SAT for bit-level component equivalence, SMT word-level back ends where both sides contain the same core terms): mode == definition over an uninterpreted block function, algebraic laws (splitting, round trip) on the real cores, component and cross-implementation equivalence",
+ "assumptions": [
+  "modes-* queries: the block cipher core called by the mode file (br_aes_big/small_encrypt/decrypt, br_aes_ct/ct64_bitslice_encrypt/decrypt, br_des_tab/ct_process_block) is replaced at link time by 'apply the uninterpreted function E (or D) to every block lane' (harness/C12_ufcore.h); the stand-in checks the round count and the round keys (pointer, or contents of the locally expanded key) it is handed. Lanes of the bitsliced cores are located with the real br_aes_ct_ortho / br_aes_ct64_ortho / interleave_in/out.",
+  "that the real bitsliced cores act lane-wise and as the AES round function is decided separately: aes-ct*-components, aes-inner-*, aes-core-*-NR1 (quick), aes-core-*-enc-NR2 (thorough); full 10-round equivalence only for aes_small",
+  "for aes_ct64 and des_ct the comparison of the expanded round-key contents is made in the dedicated one-block '-keys' query of each entry point (the expansion is done once at the top of every run call whatever the length); the multi-block queries of these two check the round count only",
+  "FIPS-197 references use br_aes_S as S-box table; query aes-sbox-table decides that table equal to the definition (GF(2^8) inverse + affine map) for all 256 inputs",
+  "key-schedule queries decode bitsliced round keys with the real ortho / interleave_out (decided to be the documented, invertible layout map in the components queries); aes-keysched-ct64 expands compressed keys with the bitwise definition that aes-ct64-skey-expand decides equal to br_aes_ct64_skey_expand; aes-keysched-big-inv uses the file's own mule/mulb/muld/mul9 as GF(2^8) constant multipliers (decided for all 256 inputs in aes-big-tables-dec)",
+  "Poly1305: ChaCha20 is a cheap keyed xor stream bound at the br_chacha20_run function-pointer seam (same one on both sides)",
+  "GHASH unit-vector queries rely on GF(2)-bilinearity of the product to extend to arbitrary operands; bilinearity itself is decided only for the bmul32 kernel (== carry-less product), not for the Karatsuba recombination / reduction code",
+  "public sizes concrete per query: key length, data length (<= 5 blocks AES, 3 blocks DES, 200 bytes ChaCha20), split points enumerated",
+ ],
+ "outside_claim": [
+  "aes_x86ni, aes_pwr8, chacha20_sse2, ghash_pclmul, ghash_pwr8, poly1305_ctmulq (intrinsics / 128-bit types)",
+  "OpenSSL as external reference; data lengths above the bounds (4 KiB, every residue)",
+  "dropped after a back-end sweep without verdict: AES CBC decrypt(encrypt(x)) == x with the real cores (1 block, kissat/cadical/z3, 300 s each, all four implementations); full-cipher equivalence aes_big / aes_ct64 == FIPS-197 with 10 rounds (kissat, 420 s) and aes_ct (kissat and cadical, 900 s); aes_small finishes; 2-round decryption cores; real-core splitting law for aes_ct64 cbcdec/ctr/ctrcbc-encrypt/decrypt/ctr (even at 2 blocks) and des_ct 3DES cbcenc; des_tab == des_ct block function and des_ct CBC round trip for 3DES keys",
+  "GHASH: bmul (ghash_ctmul.c) and bmul64 kernels vs carry-less reference, one-block equivalence ctmul == ctmul32 == ctmul64 == reference for arbitrary operands (no verdict in 420 s on any back end); only the bmul32 kernel, the unit-vector cases and the padding/chaining structure are decided",
+  "Poly1305: anything beyond the footer-only message for ctmul == ctmul32; poly1305_i15 not decided at all (no verdict even for the footer-only message)",
+ ],
+ "mutants_tried": [
+  "M1 aes_ct_ctr.c: second cc++ for a 17..32-byte tail removed (returned counter one short) - caught: modes-aes_ct-ctr split law (bytes + counter), replayed natively",
+  "M2 aes_ct_cbcdec.c: IV for the next batch taken from the first instead of the second block of a 2-block batch - caught: modes-aes_ct-cbcdec (definition, split bytes, split IV)",
+  "M3 aes_ct_ctrcbc.c: carry into the second counter word dropped in ctrcbc_ctr - caught: modes-aes_ct-ctrcbc-ctr (definition bytes + counter block, split)",
+  "M4 aes_ct.c: one AND gate of the Boyar-Peralta S-box circuit turned into OR - caught: aes-ct-components (S-box vs table, both inverse laws)",
+  "M5 chacha20_ct.c: carry out of the low byte of the block counter lost - caught: chacha20-ct-vs-rfc7539-L128 (bytes + returned counter)",
+  "M6 des_ct.c: one bit of one multiplexer constant of Fconf flipped - caught: des-fconf-tab-vs-ct-R0-3",
+  "M7 aes_ct64_ctr.c: third lane uses counter cc+3 instead of cc+2 - caught: modes-aes_ct64-ctr-L85 (definition + split)",
+  "M8 aes_small_cbcenc.c: IV not written back after the last block - caught: modes-aes_small-cbcenc (IV, split)",
+  "M9 aes_ct64_ctrcbc.c: encrypt overwrites instead of xors the incoming CBC-MAC state (MAC not chained across calls) - caught: modes-aes_ct64-ctrcbc-enc (definition + both split groups)",
+  "M10 aes_common.c: Rcon[8] 0x1B -> 0x1D - caught: aes-keysched-common-K16",
+  "M11 ghash_ctmul32.c: zero padding of a short block one byte short - detected by the solver (ghash-structure-ctmul32 FAIL, exit 2) but depends on an uninitialised stack byte, so the native replay did not reproduce: reported INCONCLUSIVE(encoding), not VIOLATION",
+  "M12 aes_big_ctr.c: returns cc-1 - caught by the real-core query split-aes_big-ctr (thorough, cvc5), replayed natively",
+  "M13 aes_big_dec.c: br_aes_big_keysched_inv applies InvMixColumns to round key 0 as well - caught: aes-keysched-big-inv-K16",
+  "M14 aes_ct_cbcenc.c: core called with sk_exp + 8 - caught: stand-in core's round-key check in modes-aes_ct-cbcenc, replayed natively against the definition",
+  "(unmutated repo) ctr-tail-counter-aes_ct64-L20 FAILS on /repo as is: br_aes_ct64_ctr_run returns start+floor(len/16) after a partial final block where aes_big/aes_small/aes_ct return start+ceil(len/16); br_aesctr_drbg_generate continues from the returned value, so over aes_ct64 it outputs key-stream bytes twice - genuine defect, reported",
+  "M15 ghash_ctmul32.c: reduction term (lw >> 7) -> (lw >> 6) - caught: ghash-units-ctmul32-I0-15 (both operand orders); the padding/chaining structure queries alone do not see it",
+  "not covered: an arithmetic slip in the Poly1305 limb code (only the footer-only message is decided, ctmul vs ctmul32)",
+ ],
 }
 
 SC = "src/symcipher/"
@@ -290,6 +323,14 @@ def queries():
             qs += modes_family(impl, m, 8, 24, True, backend="cadical")
             qs += modes_family(impl, m, 24, 24, True, backend="cadical")
             qs += modes_family(impl, m, 16, 24, True, backend="cadical", tier="thorough")
+    # ---- CTR: counter returned after a partial final block (the four implementations must agree: it is an
+    #      output of the interface, and br_aesctr_drbg_generate continues from it)
+    for impl in ("aes_big", "aes_small", "aes_ct", "aes_ct64"):
+        q = modes_q(impl, AES_MODES[2], 16, 20, 1, 1, 0, backend="cadical")
+        q.name = "ctr-tail-counter-%s-L20" % impl
+        q.defs = q.defs + ["-DCHECK_TAIL_COUNTER=1"]
+        q.desc = "br_%s_ctr_run, 20 bytes (one full + one partial block): bytes == SP 800-38A CTR and returned counter == start + 2 (key-stream blocks consumed), every key/IV/start counter" % impl
+        qs.append(q)
     # ---- ESP8266-like configuration (portable 32-bit paths: byte-wise br_dec32le etc.)
     for m in AES_MODES:
         length = 48 if m[3] != 3 else 53
